@@ -136,6 +136,8 @@ template<typename T> struct Model {
   typedef typename Tr<T>::Cmp Cmp;
   std::vector<T> v;        // accepted items; v[0, nsorted) sorted by total_less (a refinement of Cmp); all of it after prep()
   size_t nsorted = 0;
+  uint64_t mult = 1;       // every item of v stands for `mult` accepted copies (sketch merged with copies of itself)
+  uint64_t total() const { return static_cast<uint64_t>(v.size()) * mult; }
   void add(const T& x) { if (Tr<T>::accepted(x)) v.push_back(x); }
   void prep() {
     if (nsorted == v.size()) return;
@@ -151,8 +153,8 @@ template<typename T> struct Model {
     std::inplace_merge(v.begin(), v.begin() + static_cast<std::ptrdiff_t>(nsorted), v.end(), TotalLess<T>());
     nsorted = v.size();
   }
-  uint64_t count_lt(const T& x) const { return static_cast<uint64_t>(std::lower_bound(v.begin(), v.end(), x, Cmp()) - v.begin()); }
-  uint64_t count_le(const T& x) const { return static_cast<uint64_t>(std::upper_bound(v.begin(), v.end(), x, Cmp()) - v.begin()); }
+  uint64_t count_lt(const T& x) const { return mult * static_cast<uint64_t>(std::lower_bound(v.begin(), v.end(), x, Cmp()) - v.begin()); }
+  uint64_t count_le(const T& x) const { return mult * static_cast<uint64_t>(std::upper_bound(v.begin(), v.end(), x, Cmp()) - v.begin()); }
   bool offered(const T& x) const { return std::binary_search(v.begin(), v.end(), x, TotalLess<T>()); }
 };
 
@@ -191,7 +193,9 @@ Observed observe(const typename F::template SK<T>& sk, Model<T>& m, Rng& r, cons
   m.prep();
   Observed o;
   const uint64_t n = sk.get_n();
-  const uint64_t N = m.v.size();
+  const uint64_t N = m.total();          // accepted items
+  const uint64_t NV = m.v.size();        // distinct model entries (== N unless the model carries a multiplier)
+  const bool flat = m.mult == 1;
   const uint32_t retained = sk.get_num_retained();
   const bool est = sk.is_estimation_mode();
   o.n = n; o.retained = retained; o.est = est; o.empty = sk.is_empty();
@@ -347,24 +351,30 @@ Observed observe(const typename F::template SK<T>& sk, Model<T>& m, Rng& r, cons
   // ---------------------------------------------------------------- query items
   std::vector<T> q;
   {
-    if (N <= dense) q = m.v;
-    else for (unsigned i = 0; i < dense; ++i) q.push_back(m.v[r.below(N)]);
+    if (NV <= dense) q = m.v;
+    else { for (unsigned i = 0; i < dense; ++i) q.push_back(m.v[r.below(NV)]); q.push_back(m.v.front()); q.push_back(m.v.back()); }
     // fresh points around the key range actually present
-    for (unsigned i = 0; i < dense / 2 + 2; ++i) q.push_back(TT::make(static_cast<int64_t>(r.below(4 * N + 64)) - 8, 0xffffffffu));
+    for (unsigned i = 0; i < dense / 2 + 2; ++i) q.push_back(TT::make(static_cast<int64_t>(r.below(4 * NV + 64)) - 8, 0xffffffffu));
     for (int i = 0; i < TT::n_special(); ++i) { const T s = TT::special(i, 0xffffffffu); if (TT::accepted(s)) q.push_back(s); }
     std::sort(q.begin(), q.end(), cmp);
   }
   // ---------------------------------------------------------------- ranks
   {
     double prev_i = 0, prev_e = 0;
+    unsigned n_top = 0, n_bottom = 0;
     const double dn = static_cast<double>(n);
     for (size_t i = 0; i < q.size(); ++i) {
       const double ri = sk.get_rank(q[i], true);
       const double re = sk.get_rank(q[i], false);
       double wi = ri, we = re;
       if (!est) { wi = static_cast<double>(m.count_le(q[i])) / dn; we = static_cast<double>(m.count_lt(q[i])) / dn; }
-      const bool ok = re >= 0 && ri <= 1 && ri >= re && (i == 0 || (ri >= prev_i && re >= prev_e)) && ri == wi && re == we;
-      checked(6);
+      // every retained item lies in [min, max] and the weights sum to n, hence:
+      const bool below_min = cmp(q[i], m.v.front()), at_or_above_max = !cmp(q[i], m.v.back());
+      const bool ends_ok = (!below_min || (ri == 0 && re == 0)) && (!at_or_above_max || ri == 1);
+      if (at_or_above_max) ++n_top;
+      if (below_min) ++n_bottom;
+      const bool ok = re >= 0 && ri <= 1 && ri >= re && (i == 0 || (ri >= prev_i && re >= prev_e)) && ri == wi && re == we && ends_ok;
+      checked(8);
       if (!ok) {
         const std::string d = " item=" + TT::show(q[i]) + " incl=" + str(ri) + " excl=" + str(re) + " prev_incl=" + str(prev_i) + " prev_excl=" + str(prev_e) +
           (est ? std::string() : " true_incl=" + str(wi) + " true_excl=" + str(we));
@@ -374,17 +384,22 @@ Observed observe(const typename F::template SK<T>& sk, Model<T>& m, Rng& r, cons
         C07_CK(i == 0 || re >= prev_e, "get_rank|exclusive-not-monotone", d);
         C07_CK(ri == wi, "get_rank|exact-mode-inclusive-ne-true", d);
         C07_CK(re == we, "get_rank|exact-mode-exclusive-ne-true", d);
+        C07_CK(!below_min || (ri == 0 && re == 0), "get_rank|below-min-ne-0", d);
+        C07_CK(!at_or_above_max || ri == 1, "get_rank|at-or-above-max-inclusive-ne-1", d);
       }
       prev_i = ri; prev_e = re;
     }
     if (!est) fcount(fam, "obs_exact_mode");
+    if (n_top) fcount(fam, "obs_rank_at_or_above_max");
+    if (n_bottom) fcount(fam, "obs_rank_below_min");
   }
   // ---------------------------------------------------------------- quantiles
   {
     struct RQ { double rank; int64_t idx; };   // idx >= 0: rank == (idx + 0.5) / n, off every rounding boundary
     std::vector<RQ> rq;
     rq.push_back(RQ{0.0, -2}); rq.push_back(RQ{1.0, -3});
-    if (N <= dense) for (uint64_t i = 0; i < N; ++i) rq.push_back(RQ{(static_cast<double>(i) + 0.5) / static_cast<double>(N), static_cast<int64_t>(i)});
+    if (!flat) { for (unsigned i = 0; i < dense; ++i) rq.push_back(RQ{r.unit(), -1}); }
+    else if (N <= dense) for (uint64_t i = 0; i < N; ++i) rq.push_back(RQ{(static_cast<double>(i) + 0.5) / static_cast<double>(N), static_cast<int64_t>(i)});
     else for (unsigned i = 0; i < dense; ++i) { const uint64_t j = r.below(N); rq.push_back(RQ{(static_cast<double>(j) + 0.5) / static_cast<double>(N), static_cast<int64_t>(j)}); }
     for (unsigned i = 0; i < dense / 2 + 2; ++i) rq.push_back(RQ{r.unit(), -1});
     std::sort(rq.begin(), rq.end(), [](const RQ& a, const RQ& b) { return a.rank < b.rank; });
@@ -396,7 +411,7 @@ Observed observe(const typename F::template SK<T>& sk, Model<T>& m, Rng& r, cons
       const T& qi = qs[2 * i];
       const T& qe = qs[2 * i + 1];
       const T* want = nullptr;     // true quantile while the sketch is exact
-      if (!est && n == N) {
+      if (!est && n == N && flat) {
         if (x.idx >= 0) want = &m.v[static_cast<size_t>(x.idx)];
         else if (x.idx == -2) want = &m.v.front();
         else if (x.idx == -3) want = &m.v.back();
@@ -691,6 +706,76 @@ void run_case_t(uint64_t idx, Rng& r) {
   (void) idx;
 }
 
+// ------------------------------------------------------------------------------- huge-n case
+// A small sketch is merged with copies of itself until n passes 2^32 (just below / exactly / above, depending on the
+// starting length): every accepted item's multiplicity doubles per merge, extremes stay, so the exact model is the
+// starting multiset with a 64-bit multiplier.  All 64-bit weight arithmetic (iterator weights, sorted view, ranks
+// summed per level, CDF/PMF) is observed against it.
+template<typename F, typename T>
+void run_case_huge(uint64_t idx, Rng& r) {
+  typedef Tr<T> TT;
+  typedef typename F::template SK<T> SK;
+  const std::string fam = F::name();
+  const uint32_t s1 = static_cast<uint32_t>(r.next()), s2 = static_cast<uint32_t>(r.next());
+  datasketches::random_utils::rand.seed(s1);
+  datasketches::random_utils::random_bit.seed(s2);
+  const typename F::Cfg cfg = F::cfg(r);
+  const uint32_t k = F::pick_k(r, false);
+  static const uint64_t n0s[] = {4096, 4095, 4097, 2048, 2047, 1024, 3000, 1500, 777};
+  const uint64_t n0 = r.chance(0.25) ? 300 + r.below(5000) : n0s[r.below(sizeof n0s / sizeof n0s[0])];
+  const int shape = static_cast<int>(r.below(S_NSHAPES));
+  const double p_special = r.chance(0.3) ? 0.03 : 0.0;
+  unsigned d_cross = 0;                       // doublings until n >= 2^32
+  while ((n0 << d_cross) < (1ULL << 32)) ++d_cross;
+  const unsigned doublings = d_cross + static_cast<unsigned>(r.below(3));
+  describe(fam + " HUGE type=" + TT::name() + " " + F::cfg_str(cfg) + " k=" + std::to_string(k) + " n0=" + std::to_string(n0) + " shape=" + shape_name(shape) +
+           " doublings=" + std::to_string(doublings) + " p_special=" + str(p_special) + " coin_seeds=" + std::to_string(s1) + "," + std::to_string(s2));
+  fcount(fam, "huge_cases");
+  fcount(fam, std::string("huge_type_") + TT::name());
+  uint32_t serial = 0;
+  SK sk(F::template make<T>(k, cfg));
+  Model<T> m;
+  const std::vector<T> items = gen_stream<T>(r, n0, shape, 0, p_special, serial);
+  feed<F, T>(sk, m, items, r);
+  m.prep();
+  if (m.v.empty()) return;
+  auto obs = [&](const char* after, bool light) {
+    const Observed o = observe<F, T>(sk, m, r, std::string("after ") + after + " " + F::cfg_str(cfg) + " k=" + std::to_string(sk.get_k()) + " n0=" + std::to_string(m.v.size()) +
+                                     " multiplier=" + std::to_string(m.mult), 32, r.chance(0.3), light);
+    F::template counters<T>(sk, o, true);
+    if (!light) {
+      if (o.n == (1ULL << 32)) fcount(fam, "huge_obs_n_eq_2p32");
+      else if (o.n > (1ULL << 32)) fcount(fam, "huge_obs_n_gt_2p32");
+      else if (o.n >= (1ULL << 31)) fcount(fam, "huge_obs_n_just_below_2p32");
+      if (o.distinct_weights && (1ULL << 32) <= (o.min_weight << (o.distinct_weights - 1))) fcount(fam, "huge_obs_item_weight_ge_2p32");
+    }
+    return o;
+  };
+  obs("updates", r.coin());
+  for (unsigned d = 1; d <= doublings; ++d) {
+    const bool rvalue = r.coin();
+    try {
+      SK copy(sk);
+      if (rvalue) sk.merge(std::move(copy)); else sk.merge(copy);
+    } catch (const std::exception& e) {
+      checked();
+      fail(fam + "|merge|threw", std::string("merging a sketch with a copy of itself threw: ") + e.what() + " doubling " + std::to_string(d));
+      return;
+    }
+    m.mult <<= 1;
+    fcount(fam, "huge_self_copy_merges");
+    const bool near = d + 2 >= d_cross;          // n within a factor 4 below 2^32, or beyond
+    if (near) obs("doubling", false);
+    else if (r.chance(0.2)) obs("doubling", r.chance(0.3));
+  }
+  (void) idx;
+}
+
+template<typename F, typename T>
+void run_one(uint64_t idx, Rng& r, uint64_t ntypes) {
+  if ((idx / ntypes) % 20 == 7) run_case_huge<F, T>(idx, r); else run_case_t<F, T>(idx, r);
+}
+
 // Item types of this translation unit: -DVF_C07_TYPESET=0 arithmetic (float, double, int64), =1 objects
 // (std::string with custom comparator, Item), unset = all five.  Compile time is the only reason to split.
 #ifndef VF_C07_TYPESET
@@ -702,22 +787,22 @@ template<typename F>
 void run_case_any(uint64_t idx, Rng& r) {
 #if VF_C07_TYPESET == 0
   switch (idx % 3) {
-    case 0: run_case_t<F, float>(idx, r); break;
-    case 1: run_case_t<F, double>(idx, r); break;
-    default: run_case_t<F, int64_t>(idx, r); break;
+    case 0: run_one<F, float>(idx, r, num_types()); break;
+    case 1: run_one<F, double>(idx, r, num_types()); break;
+    default: run_one<F, int64_t>(idx, r, num_types()); break;
   }
 #elif VF_C07_TYPESET == 1
   switch (idx % 2) {
-    case 0: run_case_t<F, std::string>(idx, r); break;
-    default: run_case_t<F, Item>(idx, r); break;
+    case 0: run_one<F, std::string>(idx, r, num_types()); break;
+    default: run_one<F, Item>(idx, r, num_types()); break;
   }
 #else
   switch (idx % 5) {
-    case 0: run_case_t<F, float>(idx, r); break;
-    case 1: run_case_t<F, double>(idx, r); break;
-    case 2: run_case_t<F, int64_t>(idx, r); break;
-    case 3: run_case_t<F, std::string>(idx, r); break;
-    default: run_case_t<F, Item>(idx, r); break;
+    case 0: run_one<F, float>(idx, r, num_types()); break;
+    case 1: run_one<F, double>(idx, r, num_types()); break;
+    case 2: run_one<F, int64_t>(idx, r, num_types()); break;
+    case 3: run_one<F, std::string>(idx, r, num_types()); break;
+    default: run_one<F, Item>(idx, r, num_types()); break;
   }
 #endif
 }
